@@ -438,6 +438,54 @@ func runC10(w *eng.W) {
 			c10Fields.Do(w, SrcCase{Src: append(Bytes(nil), src...)})
 		})
 	}
+	// long formulas: a flat chain of N operands is a tree N levels deep; the analysis reports every one of
+	// the N names, however long the chain (so do ladders of conditionals, nested brackets and nested calls)
+	for _, n := range []int{40, 1001, 1200, 3000} {
+		if w.Quick() && n > 1200 {
+			continue
+		}
+		name := func(i int) string {
+			if i%7 == 3 {
+				return fmt.Sprintf("rec%d.part", i)
+			}
+			return fmt.Sprintf("f%d", i)
+		}
+		var shapes []string
+		for _, op := range []string{" + ", " && ", " || ", " ?? ", ", ", " * ", " == "} {
+			var b strings.Builder
+			for i := 0; i < n; i++ {
+				if i > 0 {
+					b.WriteString(op)
+				}
+				b.WriteString(name(i))
+			}
+			shapes = append(shapes, b.String())
+		}
+		var lad, par, arr, call, un strings.Builder
+		for i := 0; i < n; i++ {
+			fmt.Fprintf(&lad, "%s ? %s : ", name(2*i), name(2*i+1))
+			par.WriteString("(")
+			arr.WriteString("[" + name(i) + ", ")
+			call.WriteString("f(" + name(i) + ", ")
+			un.WriteString([]string{"-", "!", "~", "+"}[i%4] + " ")
+		}
+		lad.WriteString("last")
+		par.WriteString("innermost" + strings.Repeat(")", n))
+		arr.WriteString("innermost" + strings.Repeat("]", n))
+		call.WriteString("innermost" + strings.Repeat(")", n))
+		un.WriteString("operand")
+		shapes = append(shapes, lad.String(), par.String(), arr.String(), call.String(), un.String())
+		for _, src := range shapes {
+			if !w.Take() {
+				continue
+			}
+			w.State(1)
+			w.Trans(1)
+			w.Trace(1)
+			w.Note("leg:long-formulas", 1)
+			c10Fields.Do(w, SrcCase{Src: Bytes(src)})
+		}
+	}
 	// an analysis that is refused part-way (names already collected) followed by an ordinary one
 	firsts := []string{"leaked + other.path + this.b", "a + (b).c", "[first, (second).k, third]", "f(x, (y).z)", "$l = q, 's'.b", "p ? q : [r].s", "typeof u, f(v).w", "ok1 + ok2"}
 	seconds := []string{"x + y.z", "1", "$l", "f(a)", "[a, b.c, $l.x]", "a ? b : c"}
